@@ -768,6 +768,15 @@ class Interp:
                 return self.world.opaque_attrs[name](obj, self)
             if name in self.world.opaque_sigs:
                 return BoundMethod(obj, name)
+            if hasattr(str, name) and not name.startswith('__'):
+                # a str method on an untyped value: a str has it; None /
+                # bool / int / float raise AttributeError; anything else is
+                # outside the encoding
+                tg = S.tag_fn(obj.t)
+                if self.branch(tg == 4):
+                    return BoundMethod(SStr(S.unbox_str(obj.t)), name)
+                if self.branch(z3.And(tg >= 0, tg <= 3)):
+                    self.raise_('AttributeError', node=node)
         if type(obj).__name__ in ('SMapCell', 'WriteLog'):
             return BoundMethod(obj, name)
         if isinstance(obj, ExcVal):
